@@ -1598,3 +1598,134 @@ Proof.
       * apply IH. etrans; [apply lookup_insert_ne; exact Hne|exact Hg].
       * apply IH. exact Hg.
 Qed.
+
+(* 5d. at the end of a frame that did not panic every deferred command has been applied *)
+Lemma run_system_cmdq_none pr s o k :
+  k <> sys_key s -> p_cmdq pr !! k = None -> p_cmdq (run_system pr s o) !! k = None.
+Proof.
+  intros Hk H. destruct (p_panic pr) eqn:Hp; [erewrite run_system_panicked; eauto|].
+  destruct (decide (s = SSync)) as [->|Hs].
+  - rewrite run_system_sync, flush_unfold by auto. apply cmdq_flush_steps_none, H.
+  - destruct (run_system_spec pr s o Hp Hs). rewrite ps_cmdq0 by exact Hk. exact H.
+Qed.
+
+Theorem frame_cmdq_empty pr o :
+  (forall k, p_cmdq pr !! k <> None -> exists s, s ∈ p_order pr /\ sys_key s = k) ->
+  p_panic (frame pr o) = None -> p_cmdq (frame pr o) = ∅.
+Proof.
+  intros Hdom Hp.
+  assert (p_panic pr = None) as Hp0.
+  { destruct (p_panic pr) eqn:E; [erewrite frame_panicked in Hp by eauto; congruence|reflexivity]. }
+  assert (forall l, (forall s, s ∈ l -> s ∈ p_order pr) ->
+    forall k, (forall s, s ∈ p_order pr -> sys_key s <> k) -> p_cmdq (frame_at pr o l) !! k = None) as Hout.
+  { intros l. unfold frame_at.
+    apply (run_systems_ind (fun l m => (forall s, s ∈ l -> s ∈ p_order pr) ->
+      forall k, (forall s, s ∈ p_order pr -> sys_key s <> k) -> p_cmdq m !! k = None)).
+    - intros _ k Hk. rewrite (ss_cmdq _ _ _ (frame_start_spec pr o)).
+      destruct (p_cmdq pr !! k) eqn:E; [|reflexivity].
+      destruct (Hdom k) as (s & Hs & Hks); [congruence|]. exfalso. exact (Hk s Hs Hks).
+    - clear l. intros l s m _ IH Hsub k Hk. apply run_system_cmdq_none.
+      + intros ->. apply (Hk s); [|reflexivity]. apply Hsub, elem_of_app. right. left.
+      + apply IH; [|exact Hk]. intros s' Hs'. apply Hsub, elem_of_app. left. exact Hs'. }
+  rewrite frame_unfold in * by auto. set (X := frame_at pr o (p_order pr)) in *.
+  assert (p_panic X = None) as HpX.
+  { destruct (p_panic X) eqn:E; [|reflexivity]. unfold frame_end in Hp. rewrite E in Hp. cbn in Hp. congruence. }
+  unfold frame_end. rewrite HpX. unfold last_schedule. cbn.
+  apply map_empty. intros k. rewrite flush_unfold.
+  assert (p_order X = p_order pr) as HoX by apply frame_at_fields. rewrite HoX.
+  destruct (decide (k ∈ sys_key <$> p_order pr)) as [Hin|Hin].
+  - apply elem_of_list_fmap in Hin as (s & -> & Hs). apply cmdq_flush_steps_in, Hs.
+  - apply cmdq_flush_steps_none. apply Hout; [auto|].
+    intros s Hs <-. apply Hin, elem_of_list_fmap. eauto.
+Qed.
+
+Lemma prun_cmdq_empty id sty rg ord l :
+  let pr := prun (init_peer id sty rg ord) l in p_panic pr = None -> p_cmdq pr = ∅.
+Proof.
+  cbv zeta. apply (prun_inv' (fun pr => p_panic pr = None -> p_cmdq pr = ∅)).
+  - intros pr op H Hp. destruct (app_step_spec pr op). rewrite as_cmdq0. apply H.
+    destruct (p_panic pr) eqn:E; [|reflexivity]. rewrite (app_step_panic_mono pr op _ E) in Hp. discriminate.
+  - intros pr o H Hp. apply frame_cmdq_empty; [|exact Hp]. intros k Hk. exfalso. apply Hk.
+    rewrite H; [apply lookup_empty|].
+    destruct (p_panic pr) eqn:E; [erewrite frame_panicked in Hp by eauto; congruence|reflexivity].
+  - reflexivity.
+Qed.
+
+(* 5e. the poll handles the head of the link, in order: the messages that precede
+   FinishedInitialSync are handled before it *)
+Definition client_handle (pr : peer_state) (k : N) (ms : list msg) : peer_state :=
+  foldl (fun p m => client_received p k m) pr ms.
+
+Lemma client_received_set_inbox pr k m ib :
+  client_received (pr <| n_inbox := ib |>) k m = client_received pr k m <| n_inbox := ib |>.
+Proof.
+  destruct m; unfold client_received, push_cmd, request_asset, cmd_get_entity, alive, memN; cbn;
+    repeat case_match; reflexivity.
+Qed.
+
+Lemma client_handle_set_inbox ms : forall pr k ib,
+  client_handle (pr <| n_inbox := ib |>) k ms = client_handle pr k ms <| n_inbox := ib |>.
+Proof.
+  induction ms as [|m ms IH]; intros pr k ib; [reflexivity|].
+  unfold client_handle in *. cbn [foldl]. rewrite client_received_set_inbox. apply IH.
+Qed.
+
+Lemma set_inbox_id (pr : peer_state) : pr <| n_inbox := n_inbox pr |> = pr.
+Proof. destruct pr. reflexivity. Qed.
+
+Lemma set_inbox_twice (pr : peer_state) a b : pr <| n_inbox := a |> <| n_inbox := b |> = pr <| n_inbox := b |>.
+Proof. reflexivity. Qed.
+
+Theorem client_poll_handles n : forall pr k h,
+  exists ib, client_poll pr k h n = client_handle pr k (take n (inbox pr h)) <| n_inbox := ib |>.
+Proof.
+  induction n as [|n IH]; intros pr k h.
+  - exists (n_inbox pr). change (client_poll pr k h 0) with pr. cbn. symmetry. apply set_inbox_id.
+  - rewrite client_poll_S. unfold pop_inbox, inbox.
+    destruct (n_inbox pr !! h) as [[|m rest]|] eqn:E; cbn [default].
+    + destruct (IH pr k h) as [ib Hib]. exists ib. rewrite Hib. unfold inbox. rewrite E. cbn.
+      rewrite take_nil. reflexivity.
+    + set (pr1 := pr <| n_inbox := <[h := rest]> (n_inbox pr) |>).
+      destruct (IH (client_received pr1 k m) k h) as [ib Hib]. exists ib. rewrite Hib.
+      rewrite client_received_inbox'. unfold inbox at 1. unfold pr1 at 1. cbn. rewrite lookup_insert. cbn.
+      unfold pr1. rewrite client_received_set_inbox, client_handle_set_inbox. reflexivity.
+    + destruct (IH pr k h) as [ib Hib]. exists ib. rewrite Hib. unfold inbox. rewrite E. cbn.
+      rewrite take_nil. reflexivity.
+Qed.
+
+(* In the frame in which a client polls FinishedInitialSync: every message that preceded it on
+   the link from the host is handled by this poll (or was by an earlier one), in link order and
+   before it; and at the end of the frame no deferred command is pending, for every order: every
+   command those handlers queued has been applied.  What "the world reflects the snapshot"
+   then means is the effect of the handlers and of their commands. *)
+Theorem finished_implies_snapshot_applied pr o l1 l2 h t pre post :
+  p_order pr = l1 ++ SCliPoll :: l2 ->
+  let m := frame_at pr o l1 in
+  p_panic m = None -> client_gate m = true -> n_cli_transport m = Some (h, t) ->
+  inbox m h = pre ++ MFinInit :: post -> (length pre < fo_cli_poll o)%nat ->
+  let handled := pre ++ MFinInit :: take (fo_cli_poll o - S (length pre)) post in
+  (exists ib, run_system m SCliPoll o
+              = end_run (client_handle (m <| p_tick := p_tick m + 1 |>) (sys_key SCliPoll) handled
+                         <| n_inbox := ib |>) (sys_key SCliPoll) (p_tick m))
+  /\ inbox (run_system m SCliPoll o) h = drop (fo_cli_poll o) (inbox m h)
+  /\ ((forall k, p_cmdq pr !! k <> None -> exists s, s ∈ p_order pr /\ sys_key s = k) ->
+      p_panic (frame pr o) = None -> p_cmdq (frame pr o) = ∅).
+Proof.
+  intros Ho m Hp Hg Ht Hin Hlen handled.
+  assert (take (fo_cli_poll o) (inbox m h) = handled) as Htake.
+  { rewrite Hin. rewrite take_app_ge by lia.
+    replace (fo_cli_poll o - length pre)%nat with (S (fo_cli_poll o - S (length pre))) by lia.
+    reflexivity. }
+  assert (run_system m SCliPoll o
+          = end_run (client_poll (m <| p_tick := p_tick m + 1 |>) (sys_key SCliPoll) h (fo_cli_poll o))
+              (sys_key SCliPoll) (p_tick m)) as Hrun.
+  { unfold run_system. rewrite Hp. cbv beta iota zeta. rewrite Hg.
+    unfold run_body, begin_run. cbv zeta. cbn [n_cli_transport set]. rewrite Ht. reflexivity. }
+  split; [|split].
+  - destruct (client_poll_handles (fo_cli_poll o) (m <| p_tick := p_tick m + 1 |>) (sys_key SCliPoll) h) as [ib Hib].
+    exists ib. rewrite Hrun, Hib. unfold inbox in *. cbn [n_inbox set] in *. rewrite Htake. reflexivity.
+  - rewrite Hrun.
+    destruct (client_poll_fifo (m <| p_tick := p_tick m + 1 |>) (sys_key SCliPoll) h (fo_cli_poll o)) as [H _].
+    exact H.
+  - apply frame_cmdq_empty.
+Qed.
